@@ -205,8 +205,7 @@ def run_unit(name, unit, timeout=300):
             continue
         if blk.startswith("error: aborting"):
             continue
-        lines = [int(x) for x in re.findall(r"-->\s*\S+?:(\d+):\d+", blk)]
-        lines += [int(x) for x in re.findall(r"^\s*(\d+)\s*\|", blk, re.M)]
+        lines = primary_span_lines(blk)
         hit = [tags[l] for l in lines if l in tags]
         if hit:
             failed_tags.update(hit)
@@ -242,6 +241,33 @@ def run_unit(name, unit, timeout=300):
             o["status"] = "failed" if res["status"] == "failed" else "undecided"
     res["trusted"] = list(unit.get("trusted", [])) + scan_assumptions(path, name)
     return res
+
+
+def primary_span_lines(blk):
+    """Source lines of the PRIMARY span of one Verus/rustc diagnostic (the clause that failed): the `-->` line
+    and, for a multi-line span, the lines up to the one carrying the `^` marker. Context lines and secondary
+    spans (`at the end of the function body`, `at this exit`) are not included."""
+    ls = blk.split("\n")
+    out, started = [], False
+    for i, ln in enumerate(ls):
+        m = re.search(r"-->\s*\S+?:(\d+):\d+", ln)
+        if m and not started:
+            out.append(int(m.group(1)))
+            started = True
+            continue
+        if not started:
+            continue
+        if re.match(r"^\s*\|\s*(\|?_*)?\^", ln):      # caret line: end of the primary span
+            break
+        n = re.match(r"^\s*(\d+)\s*\|\s?([/|])?", ln)
+        if n:
+            if n.group(2) or int(n.group(1)) == out[0]:
+                out.append(int(n.group(1)))
+            elif len(out) > 1:
+                out.append(int(n.group(1)))
+        if re.match(r"^\s*-->", ln):                        # a second location: secondary span
+            break
+    return out
 
 
 def scan_assumptions(path, name):
